@@ -219,6 +219,20 @@ func diffHelpers(c *Ctx) {
 								over = objOf(d.pkg, rs.X)
 							}
 						}
+						// the functional form: res = filter(from, func(el) bool { return <absent from against> })
+						litText := ""
+						if ce, isCall := as.Rhs[0].(*ast.CallExpr); isCall && over == nil {
+							for _, a := range ce.Args {
+								if lit, isLit := a.(*ast.FuncLit); isLit {
+									litText = exprText(c.P.Fset, lit.Body)
+								} else if o := objOf(d.pkg, a); o != nil && (o == from || o == against) {
+									over = o
+								}
+							}
+							if litText == "" {
+								over = nil
+							}
+						}
 						// the absence test mentions `against` (directly or through an index built from it)
 						text := ""
 						chain := enclosing(d.fd.Body, as)
@@ -262,6 +276,7 @@ func diffHelpers(c *Ctx) {
 							}
 							return true
 						})
+						text += litText
 						mentionsAgainst := strings.Contains(text, against.Name())
 						for nm, src := range idxOf {
 							if src == against && strings.Contains(text, nm+"[") {
